@@ -19,6 +19,26 @@ Definition set_commented (b : bool) (t : tree) : tree :=
     end
   else t.
 
+(* The children loop of compute_no_format_impl, as a function of the recursive call `rec`
+   (used to state lemmas; `no_format` below carries the same loop as a local fix). *)
+Definition skips_directive (c : tree) : bool :=
+  match kind_of c with KSpace | KHash => true | _ => false end.
+
+Fixpoint no_format_children (rec : tree -> tree) (cs : list tree) (disable_next commented : bool) : list tree * bool :=
+  match cs with
+  | [] => ([], commented)
+  | c :: rest =>
+      if is_comment_node c then
+        if contains typstyle_off (text_of c) then
+          let (r, cm) := no_format_children rec rest true true in (set_disabled c :: r, cm)
+        else
+          let (r, cm) := no_format_children rec rest disable_next true in (c :: r, cm)
+      else if disable_next && negb (skips_directive c) then
+        let (r, cm) := no_format_children rec rest false commented in (set_disabled c :: r, cm)
+      else
+        let (r, cm) := no_format_children rec rest disable_next commented in (rec c :: r, cm)
+  end.
+
 (* compute_no_format_impl: marks; does not descend into a disabled node *)
 Fixpoint no_format (t : tree) : tree :=
   match t with
@@ -33,7 +53,7 @@ Fixpoint no_format (t : tree) : tree :=
                 let (r, cm) := go rest true true in (set_disabled c :: r, cm)
               else
                 let (r, cm) := go rest disable_next true in (c :: r, cm)
-            else if disable_next && negb (match kind_of c with KSpace | KHash => true | _ => false end) then
+            else if disable_next && negb (skips_directive c) then
               let (r, cm) := go rest false commented in (set_disabled c :: r, cm)
             else
               let (r, cm) := go rest disable_next commented in (no_format c :: r, cm)
